@@ -5,7 +5,8 @@ From Coq Require Import List ZArith NArith Bool Permutation String.
 From Coq.Strings Require Import Byte.
 From Coq.Floats Require Import SpecFloat.
 Import ListNotations.
-From BWTable Require Import Cells Fmt StrOrder Sort SortProofs LimitProofs Reduce ReduceSpec ReduceProofs GroupProofs.
+From BWTable Require Import Cells Fmt StrOrder Sort SortProofs ValueOrder Limit LimitProofs Reduce ReduceSpec ReduceProofs GroupProofs
+  Expr Exec ValueEngine ValueEngineProofs.
 Open Scope Z_scope.
 
 (* ---- full: the aggregates of one range (group) ------------------------------------------------------------------ *)
@@ -39,8 +40,57 @@ Theorem C11_sum_rejects_other_values : forall l st v, sum_int st l = Ok v ->
 Proof. exact sum_int_not_int. Qed.
 Print Assumptions C11_sum_rejects_other_values.
 
+(* ==== THE CURRENT ENGINE: Reduce sorts BY VALUE and folds the runs of rows the sort cannot tell apart (repair fd030b0) ===
+   Full, for ALL tables (any mix of kinds in a grouping column, any float64 values): *)
+
+(* the runs are a partition of the input rows, the heads of different runs are in different groups (strictly
+   increasing), and each run is exactly the set of input rows of its group *)
+Theorem C11_groups : forall srt ks rows sorted,
+  sorter_ok srt -> table_sortv_with srt (Some ks) rows = Ok sorted ->
+  let gs := runs_by (same_group ks) sorted in
+  Permutation rows (List.concat gs) /\
+  Sorted.StronglySorted (gltv (row_cmpv ks)) gs /\
+  (forall g a0 rest, In g gs -> g = a0 :: rest -> Permutation g (filter (same_group ks a0) rows)).
+Proof. exact runs_are_groups_v. Qed.
+Print Assumptions C11_groups.
+
+(* "the same group" is equality of the grouping VALUES: same kind and same value for every grouping binding (numbers
+   numerically, anchors as instants, text / blob by their bytes, the rest by printed form) *)
+Theorem C11_grouping_is_value_equality : forall ks a b,
+  has_keys ks a = true -> has_keys ks b = true ->
+  (same_group ks a b = true <-> same_values (map k_b ks) a b = true).
+Proof. exact same_group_is_same_values. Qed.
+Print Assumptions C11_grouping_is_value_equality.
+
+(* Reduce returns exactly one row per run, i.e. (C11_groups) one row per distinct combination of grouping values *)
+Theorem C11_one_row_per_run : forall srt ks aaps t out,
+  t_rows t <> [] -> reducev_with srt (Some ks) aaps t = Ok out ->
+  exists sorted,
+    table_sortv_with srt (Some ks) (t_rows t) = Ok sorted /\
+    map_res (reduce_range_checked (to_map aaps)) (runs_by (same_group ks) sorted) = Ok (t_rows out) /\
+    List.length (t_rows out) = List.length (runs_by (same_group ks) sorted).
+Proof. exact reducev_rows_are_runs. Qed.
+Print Assumptions C11_one_row_per_run.
+
+(* no solutions => the empty result, not a failure *)
+Theorem C11_empty : forall srt group_by projs bs, group_by <> [] ->
+  project_and_group_byv_with srt group_by projs (mkTable bs []) = Ok (mkTable bs []).
+Proof. exact project_and_group_byv_empty. Qed.
+Print Assumptions C11_empty.
+
+(* the witnesses of the refutations below under the CURRENT engine: text a, node, text a -> 2 groups; 1e-07, 2e-07,
+   1e-07 -> 2 groups *)
+Example C11_witnesses_now_grouped :
+  (match reducev (Some [mkKey 1%N false]) [mkAap 1%N 1%N AccNone; mkAap 2%N 3%N AccCount]
+          (mkTable [1%N; 2%N] [ [(1%N, CL (text_lit (list_byte_of_string "a"))); (2%N, CL (int_lit 1))];
+                                [(1%N, CN (list_byte_of_string "/u<n>")); (2%N, CL (int_lit 1))];
+                                [(1%N, CL (text_lit (list_byte_of_string "a"))); (2%N, CL (int_lit 1))] ]) with
+   | Ok t => List.length (t_rows t) = 2%nat | _ => False end).
+Proof. vm_compute. reflexivity. Qed.
+
+(* ==== THE ENGINE AS FOUND (group id = joined printed forms, sort by formatted strings) ============================== *)
 (* ---- full: the ranges Reduce folds are the maximal runs of equal group id of the sorted table ------------------- *)
-Theorem C11_runs : forall ks l,
+Theorem C11_runs_as_found : forall ks l,
   List.concat (runs ks l) = l /\
   Forall (fun g => g <> []) (runs ks l) /\
   Forall (fun g => forall a b, In a g -> In b g -> group_id ks a = group_id ks b) (runs ks l) /\
@@ -48,25 +98,25 @@ Theorem C11_runs : forall ks l,
 Proof.
   intros ks l. split; [apply runs_concat|]. split; [apply runs_nonempty|]. split; [apply runs_same_id | apply runs_maximal].
 Qed.
-Print Assumptions C11_runs.
+Print Assumptions C11_runs_as_found.
 
-Theorem C11_one_row_per_run : forall srt k ks aaps t out,
+Theorem C11_one_row_per_run_as_found : forall srt k ks aaps t out,
   t_rows t <> [] -> reduce_with srt (Some (k :: ks)) aaps t = Ok out ->
   exists sorted,
     table_sort_with srt (Some (k :: ks)) (t_rows t) = Ok sorted /\
     map_res (reduce_range_checked (to_map aaps)) (runs (k :: ks) sorted) = Ok (t_rows out) /\
     List.length (t_rows out) = List.length (runs (k :: ks) sorted).
 Proof. exact reduce_rows_are_runs. Qed.
-Print Assumptions C11_one_row_per_run.
+Print Assumptions C11_one_row_per_run_as_found.
 
 (* ---- partial (D11): the runs ARE the groups ------------------------------------------------------------------------
    D11 (boolean): every grouping column holds cells of one kind, and two rows have the same printed group id exactly
    when rowLess cannot tell them apart (fails for float64 values that differ below 1e-6, for strings that differ in
    outer white space, for ids that collide through the ";" separator).  Then, for every sorter meeting the contract of
    sort.Sort: the runs are a partition of the input rows, no two runs have the same id, and each run holds exactly the
-   input rows with its id - so Reduce returns exactly one row per distinct key combination (C11_one_row_per_run) whose
+   input rows with its id - so Reduce returns exactly one row per distinct key combination (C11_one_row_per_run_as_found) whose
    count is the number of input rows of the group (C11_count). *)
-Theorem C11_groups_partial : forall srt k ks rows sorted,
+Theorem C11_groups_as_found_partial : forall srt k ks rows sorted,
   sorter_ok srt -> d11 (k :: ks) rows = true ->
   table_sort_with srt (Some (k :: ks)) rows = Ok sorted ->
   let gs := runs (k :: ks) sorted in
@@ -75,7 +125,7 @@ Theorem C11_groups_partial : forall srt k ks rows sorted,
   (forall g, In g gs ->
      Permutation g (filter (fun r => str_eqb (group_id (k :: ks) r) (head_id (k :: ks) g)) rows)).
 Proof. exact d11_runs_are_groups. Qed.
-Print Assumptions C11_groups_partial.
+Print Assumptions C11_groups_as_found_partial.
 
 (* ... and the aggregates do not depend on the order of the rows inside a group: what Reduce computes over a run is
    what the property asks for over the group (any permutation of it) *)
@@ -107,10 +157,10 @@ Example C11_d11_nonvacuous :
 Proof. vm_compute. split; reflexivity. Qed.
 
 (* ---- full: no solutions => the empty result, not a failure (code after repairs 3cb5b46 / 6f0bb79) ----------------- *)
-Theorem C11_empty : forall srt fx group_by projs bs, fx_empty fx = true -> group_by <> [] ->
+Theorem C11_empty_as_found_model : forall srt fx group_by projs bs, fx_empty fx = true -> group_by <> [] ->
   project_and_group_by_with srt fx group_by projs (mkTable bs []) = Ok (mkTable bs []).
 Proof. exact project_and_group_by_empty. Qed.
-Print Assumptions C11_empty.
+Print Assumptions C11_empty_as_found_model.
 
 (* ---- refuted ------------------------------------------------------------------------------------------------------ *)
 Definition fixes_all : pg_fixes := mkFixes true true true true.
